@@ -339,7 +339,13 @@ fn c12_one(ctx: &mut Ctx, c: &DayCase, r: &mut Rng) {
 pub fn c12(ctx: &mut Ctx, tier: &str, r: &mut Rng, js: &[Value], reqs: &[String], replay_only: bool) {
     for c in cases_from(js, reqs) {
         if f64::from(c.l.coords.latitude).abs() <= 62. {
-            let c2 = c.with(|p| p.round_seconds = RoundSeconds::None);
+            // the clauses are evaluated from a parameter set without minute offsets (the offset clause adds its own)
+            let c2 = c.with(|p| {
+                p.round_seconds = RoundSeconds::None;
+                for q in PRAYERS {
+                    *p.minutes.get_mut(&q).unwrap() = 0.;
+                }
+            });
             c12_one(ctx, &DayCase { w: None, ..c2 }, r);
         }
     }
